@@ -250,6 +250,48 @@ def r07_5(prog, tab):
     return r
 
 
+def r07_7(prog, cfg):
+    """A failing encoder result names the type that failed.  asn_encode_internal tells `the structure is ill-formed /
+    the output failed` (errno EBADF, later EIO) from `no such codec` (ENOENT) by er.failed_type, and asn_encode asserts
+    the former after a failed callback.  Sites: a fallible call whose result is stored in the `encoded` field of a local
+    asn_enc_rval_t.  Assuming it answered -1, no return of that object may be reachable on which its failed_type was
+    last set to the constant 0 (the ASN__ENCODED_OK exit)."""
+    r = Rule("R07.7", "an encoder result with encoded == -1 is never returned with failed_type cleared", floor=8 if cfg == "default" else 0)
+    fall = fallible_functions(prog)
+    for f in sorted(prog.funcs.values(), key=lambda f: f.key):
+        if "asn_enc_rval" not in f.ret_type:
+            continue
+        for b, i, e in f.calls():
+            if site_target(prog, f, e, fall) is None or e.get("use") != "assigned":
+                continue
+            lt = strip_casts(e.get("useinfo", {}).get("lhs_tree"))
+            if not (isinstance(lt, list) and lt and lt[0] == "member" and lt[2] == "encoded" and not lt[3] and is_var(lt[1])):
+                continue
+            var = strip_casts(lt[1])[1]
+            key = "%s.encoded=%s" % (var.split("@")[0], site_target(prog, f, e, fall))
+            subj = assume.Subject("var", var=var, field="encoded")
+
+            def classify(rb, ri, re_, env=None, var=var):
+                env = env or {}
+                ex = re_.get("expr")
+                t = strip_casts(ex["tree"]) if ex else None
+                if is_var(t, var) and env.get((var, "failed_type")) == 0 and env.get((var, "encoded"), -1) in (-1, "nonconst", None):
+                    return "success"
+                return "fail"
+            hits = assume.explore(f, b, i, subj, -1, classify, origin_callid=e.get("id"), from_entry=False, subject_return_ok=False)
+            hits = [h for h in hits if h[0] == "success"]
+            if hits:
+                kind, rb, ri, re_, path, lost = hits[0]
+                r.bad(f, key, "assuming this call answered -1, the object is returned at line %s with failed_type cleared (the success exit): "
+                              "asn_encode_internal reports `no such codec` (ENOENT) and asn_encode's assertion on a failed callback aborts" % re_.get("line"),
+                      e["line"], witness={"path": guards.path_lines(f, list(path))})
+            else:
+                r.ok(f, key, "assuming -1, every return of the object keeps (or sets) failed_type", e["line"])
+    for i in r.insts:
+        i.config = cfg
+    return r
+
+
 def run_config(prog, cfg):
     tab = load_tables("c07")
     ns = load_tables("nullslot")
@@ -276,7 +318,7 @@ def run_config(prog, cfg):
     for r in (r1, r2, r3, r4, r5, r6):
         for i in r.insts:
             i.config = cfg
-    return [r1, r2, r3, r4, r5, r6]
+    return [r1, r2, r3, r4, r5, r6, r07_7(prog, cfg)]
 
 
 def run(ctx):
@@ -320,8 +362,71 @@ def _overflow_tests(f):
     return out
 
 
+def _errno_assign(e):
+    """constant stored into errno by event e, or None"""
+    if e["k"] == "assign" and e.get("op") == "=" and "__errno_location" in (e.get("lhs") or "") and "rhs" in e:
+        return e["rhs"].get("const")
+    return None
+
+
+def r07_4_errno(prog, rule):
+    """asn_encode() asserts a particular errno after a failed callback before turning it into EIO.  Every way
+    asn_encode_internal() can come back after a *direct* call of the callback failed must leave exactly that errno:
+    from the failing edge of each direct callback call, every path to a return ends with errno last set to the asserted
+    constant."""
+    fa = prog.require("asn_encode")
+    want = None
+    for b, i, e in fa.events("assert"):
+        t = e["cond"]["tree"]
+        if isinstance(t, list) and t[0] == "bin" and t[1] == "==" and "__errno_location" in tree_text(t[2]):
+            want = const_of(t[3])
+    if want is None:
+        rule.ok(fa, "errno-assert", "asn_encode no longer asserts a particular errno after a failed callback", fa.line, nontrivial=False)
+        return
+    f = prog.require("asn_encode_internal")
+    n = 0
+    for b, i, e in f.calls():
+        if not is_cb_call(e):
+            continue
+        n += 1
+        key = "callback#%d:errno" % n
+        # failing edge: the call is tested `< 0` in its block's terminator
+        starts = [(s_, None) for s_ in b.succs()]
+        if b.term and "cond" in b.term and len(b.succ) >= 2:
+            ct = strip_casts(b.term["cond"]["tree"])
+            if isinstance(ct, list) and ct and ct[0] == "bin" and ct[1] == "<" and const_of(ct[3]) == 0:
+                starts = [(b.succ[0], None)]
+        bad = None
+        seen = set()
+        st = list(starts)
+        while st and bad is None:
+            bid, last = st.pop()
+            if bid is None or (bid, last) in seen:
+                continue
+            seen.add((bid, last))
+            blk = f.blocks[bid]
+            stop = False
+            for y in blk.ev:
+                c = _errno_assign(y)
+                if c is not None or (y["k"] == "assign" and "__errno_location" in (y.get("lhs") or "")):
+                    last = c if c is not None else "nonconst"
+                if y["k"] == "return":
+                    if last != want:
+                        bad = (y, last)
+                    stop = True
+                    break
+            if not stop:
+                st.extend((s_, last) for s_ in blk.succs())
+        if bad is None:
+            rule.ok(f, key, "after a failed callback errno is %d on every return, as asn_encode asserts" % want, e["line"])
+        else:
+            rule.bad(f, key, "after this callback call failed, the return at line %s is reached with errno last set to %s, but asn_encode asserts "
+                             "errno == %d before mapping it to EIO: the process aborts instead of returning -1/EIO" % (bad[0].get("line"), bad[1], want), e["line"])
+
+
 def r07_4(prog, rule):
     from .c15 import must_pass
+    r07_4_errno(prog, rule)
     for name, grows in (("overrun_encoder_cb", False), ("dynamic_encoder_cb", True)):
         f = prog.require(name)
         tests = _overflow_tests(f)
